@@ -750,4 +750,43 @@ func main() {
 			}
 		}
 	}
+	// wide octopus merges under hibernation (harness/synth.GenOctopusHib): an octopus of at least d+3 parents makes
+	// insertHibernateBoot emit ONE boot action that covers several branches, so several sleeping BurndownAnalysis
+	// clones are booted by one action and merged right afterwards.  1-2 octopus merges of 4..7 parents per
+	// history, arms of different lengths, a chain after the merge, 1-2 roots, single head; distances 1..4 (always
+	// including parents-3 and parents-4), thresholds {0, 1, an arena size met}, memory and disk, some tampering.
+	no := c.Count(9, 200)
+	for i := 0; i < no; i++ {
+		k := 4 + c.Rng.Intn(4)
+		oo := synth.OctoOpts{Roots: 1 + c.Rng.Intn(2), Merges: 1 + c.Rng.Intn(2), MinPar: k, MaxPar: k,
+			MaxArm: 1 + c.Rng.Intn(3), MaxTail: 1 + c.Rng.Intn(2)}
+		if i%3 == 2 {
+			oo.MinPar = 3
+		}
+		h := synth.GenOctopusHib(c.Rng, synth.GenOpts{MergeAddsPr: 3}, oo)
+		G := 1 + c.Rng.Intn(3)
+		S := 1 + c.Rng.Intn(G)
+		d0 := k - 3
+		if d0 > 4 {
+			d0 = 4
+		}
+		seen := sizesSeen(h, G, S, d0)
+		pick := c.Rng.Intn(1 << 20)
+		s := 2
+		if len(seen) > 0 {
+			s = seen[pick%len(seen)]
+		}
+		for dist := 1; dist <= 4; dist++ {
+			for _, thr := range []int{0, 1, s} {
+				for _, disk := range []bool{false, true} {
+					emitCase(c, caseIn{"octo", h, G, S, runCfg{dist: dist, thr: thr, disk: disk, fault: "none", wrap: c.Rng.Intn(4) != 0}})
+				}
+			}
+		}
+		for _, mode := range []string{"remove", "trunc0", "half", "minus1"} {
+			dist := 1 + c.Rng.Intn(d0)
+			emitCase(c, caseIn{"octotamper", h, G, S, runCfg{dist: dist, thr: []int{0, 1, s}[c.Rng.Intn(3)], disk: true, fault: "tamper",
+				tamper: &tamperSpec{mode: mode, skip: c.Rng.Intn(3)}, wrap: c.Rng.Intn(3) != 0}})
+		}
+	}
 }
